@@ -397,6 +397,54 @@ fn sweep_labels(rep: &Reporter, c: &Counters) {
     });
 }
 
+/// EVERY catalog shape with a data-label operand, with the labels laid out at offset 15 / 16 / 17 so that with
+/// DS = 0xFFFF the operand is the last byte of memory, a word across the end of memory, or the first bytes again
+fn sweep_labels_top(rep: &Reporter, c: &Counters) -> usize {
+    let cat = crate::catalog::catalog(&crate::catalog::CatOpts { disps: vec![2], all_regs: false });
+    let shapes: Vec<&Instr> = cat.iter().filter(|i| i.operands().into_iter().any(|o| matches!(o, Opnd::Label(..))) && !matches!(i, Instr::Lea(..))).collect();
+    let layouts: Vec<(Vec<DataDef>, u16, u16)> = vec![
+        (vec![DataDef::Arr(None, W::B, 15), DataDef::Val(Some("wv".into()), W::W, 0), DataDef::Val(Some("bv".into()), W::B, 0)], 17, 15),
+        (vec![DataDef::Arr(None, W::B, 15), DataDef::Val(Some("bv".into()), W::B, 0), DataDef::Val(Some("wv".into()), W::W, 0)], 15, 16),
+    ];
+    let work: Vec<(&Instr, usize)> = shapes.iter().flat_map(|i| (0..layouts.len()).map(move |k| (*i, k))).collect();
+    work.par_iter().for_each(|(i, k)| {
+        with_worker(|wk| {
+            let (data, bv_off, wv_off) = &layouts[*k];
+            let mut prog = std_program(i);
+            prog.data = data.clone();
+            let site = i.shape();
+            let mut p = match prepare_src(i, crate::ast::render(&prog)) {
+                Ok(p) => p,
+                Err(e) => {
+                    c.block(format!("{}: {:?}", site, e));
+                    return;
+                }
+            };
+            p.dc.labels.insert("bv".into(), *bv_off);
+            p.dc.labels.insert("wv".into(), *wv_off);
+            for ds in [0xFFFFu16, 0xFFFE, 0x0FFF] {
+                let mut pre = RefM { r: Regs::distinct(0x55), m: SMem::new(0), call_stack: vec![] };
+                pre.r.flag = 0xF000;
+                pre.r.es = 0x2340;
+                pre.r.ss = 0x3450;
+                pre.r.cs = 0x4560;
+                pre.r.ds = ds;
+                pre.r.sp = 0x0100;
+                let a = opnd_addr(i.operands().iter().find(|o| matches!(o, Opnd::Label(..))).unwrap(), &pre.r, &p.dc).unwrap();
+                pre.m.set16(a, 0x7C3E);
+                pre.m.set(a.wrapping_sub(1) & 0xFFFFF, 0xB1);
+                pre.m.set((a + 2) & 0xFFFFF, 0xB2);
+                // where an unwrapped high byte would be looked for there is nothing (index 2^20 does not exist);
+                // the byte after the segment start is a decoy for "wrapped within the segment"
+                wk.case(rep, c, &mut p, &pre, &site, &[("segv", ds as i64), ("addr", a as i64)], ds as u64, true);
+            }
+            c.shapes.fetch_add(1, Ordering::Relaxed);
+            wk.flush(c);
+        })
+    });
+    shapes.len()
+}
+
 /// byte registers alias exactly their half of the 16-bit register
 fn sweep_byte_alias(rep: &Reporter, c: &Counters) {
     let parents = w16_small();
@@ -444,11 +492,12 @@ pub fn run(tier: &Tier) -> i32 {
     let n = sweep_mem(&rep, &c, tier.thorough);
     let n_wrap = sweep_catalog_wrap(&rep, &c, tier.thorough);
     sweep_labels(&rep, &c);
+    let n_lab_top = sweep_labels_top(&rep, &c);
     sweep_byte_alias(&rep, &c);
     let mut cov = Coverage::default();
     cov.exhaustive = true;
-    cov.rule = "every case = (consumer instruction with one memory operand, pre-state): all address forms of syntax.md (direct, indirect, based, indexed, based-indexed, with 8 displacements incl. negative and wrapping ones) x {no override, ES, CS, SS, DS} x both widths x 12 consumers (loads, stores, read-modify-writes, xchg, lea, destination aliasing an address register) x base/index register lattice x 6 segment values chosen so that seg*16+off straddles 2^20, plus, for every shape, register values solved so that seg*16+off is exactly 0xFFFFE, 0xFFFFF, 2^20, 2^20+1, 2^20+2 for three segment values. The operand value sits only at the reference address; decoy markers sit at the same offset in the other segments, at the unwrapped offset and at the neighbouring bytes; the whole 1 MB is compared after every execution. Plus EVERY shape of the instruction catalog that has a register-based memory operand (all instruction kinds) with the operand solved to lie at 0xFFFFE, 0xFFFFF and 2^20 for two segment values. Plus data-label operands with 6 DS values and byte-register aliasing (8 registers x 256 values x parent lattice)".into();
-    cov.bounds = json!({"mem_shapes": n, "catalog_shapes_at_the_top_of_memory": n_wrap, "register_values": if tier.thorough {15} else {4}, "segments": if tier.thorough {10} else {6}, "tier": tier.name()});
+    cov.rule = "every case = (consumer instruction with one memory operand, pre-state): all address forms of syntax.md (direct, indirect, based, indexed, based-indexed, with 8 displacements incl. negative and wrapping ones) x {no override, ES, CS, SS, DS} x both widths x 12 consumers (loads, stores, read-modify-writes, xchg, lea, destination aliasing an address register) x base/index register lattice x 6 segment values chosen so that seg*16+off straddles 2^20, plus, for every shape, register values solved so that seg*16+off is exactly 0xFFFFE, 0xFFFFF, 2^20, 2^20+1, 2^20+2 for three segment values. The operand value sits only at the reference address; decoy markers sit at the same offset in the other segments, at the unwrapped offset and at the neighbouring bytes; the whole 1 MB is compared after every execution. Plus EVERY shape of the instruction catalog that has a register-based memory operand (all instruction kinds) with the operand solved to lie at 0xFFFFE, 0xFFFFF and 2^20 for two segment values. Plus EVERY catalog shape with a data-label operand with the label at offset 15 / 16 / 17 under DS = 0xFFFF, 0xFFFE, 0x0FFF (last byte of memory, word across the end). Plus data-label operands with 6 DS values and byte-register aliasing (8 registers x 256 values x parent lattice)".into();
+    cov.bounds = json!({"mem_shapes": n, "catalog_shapes_at_the_top_of_memory": n_wrap, "label_shapes_at_the_top_of_memory": n_lab_top, "register_values": if tier.thorough {15} else {4}, "segments": if tier.thorough {10} else {6}, "tier": tier.name()});
     cov.assumptions = common_assumptions();
     cov.assumptions.push("physical address = (segment*16 + ((base+index+disp) mod 2^16)) mod 2^20; default segment SS iff BP is the base".into());
     let cov = finish_cov(&c, cov);
